@@ -24,7 +24,7 @@ ASSUME_STRUCT = [
 register(
     "C01",
     "struct",
-    quick=60000,
+    quick=50000,
     thorough=1500000,
     level="fault_enumeration",
     title="links always describe one consistent forest",
@@ -57,7 +57,7 @@ register(
 register(
     "C16",
     "struct",
-    quick=60000,
+    quick=40000,
     thorough=1500000,
     level="fault_enumeration",
     title="hooks fire exactly once, in order, observing the right state",
